@@ -23,7 +23,7 @@ SPEC_DIR = tlc.SPEC / "concat"
 ALL_DEV = ["RenameKeepsLabel", "WsRemoveKeepsChild", "HoleRemovalKeepsObjectRows", "HoleRemovalKeepsGroupChild",
            "StalePgIdCache", "EmptyTableRaises", "TableByLabel"]
 # (cfg, format version, number of paths replayed: None = the complete path cover, n = seeded sample)
-EXPORTS = {"quick": [("DrillholeConcatExportQuick.cfg", 21, 1000), ("DrillholeConcatExportDeep.cfg", 21, 500),
+EXPORTS = {"quick": [("DrillholeConcatExportQuick.cfg", 21, 800), ("DrillholeConcatExportDeep.cfg", 21, 400),
                      ("DrillholeConcatExportQuick20.cfg", 20, None)],
            "thorough": [("DrillholeConcatExportQuick.cfg", 21, None), ("DrillholeConcatExportDeep.cfg", 21, None),
                         ("DrillholeConcatExportQuick20.cfg", 20, None), ("DrillholeConcatExportThorough20.cfg", 20, 2500),
@@ -83,7 +83,7 @@ def _with_deviations(cfg_name, devs, workdir):
 
 def _export(cfg_name, devs, workdir):
     _with_deviations(cfg_name, devs, workdir)
-    res = tlc.run_tlc(workdir, "DrillholeConcat", cfg_name, workers=4, heap="4g", timeout=3000, env_extra=JENV)
+    res = tlc.run_tlc(workdir, "DrillholeConcat", cfg_name, workers=1, heap="4g", timeout=3000, env_extra=JENV)  # 1 worker: BFS levels (MaxLevel) and line order are deterministic
     if not res.ok:
         raise MachineryError(f"TLC reports {res.violated} on export {cfg_name}\n{res.raw_tail[-1500:]}")
     g = tlc.build_graph(res.lines)
